@@ -1,6 +1,7 @@
 import NanoVerif.Proofs.DatasetStorage
 import NanoVerif.Proofs.DatasetViews
 import NanoVerif.Proofs.DatasetColumns
+import NanoVerif.Proofs.DatasetGradient
 /-!
   C08 — the flattened view: writing blocks of columns into the row buffer, `flatten` = horizontal concatenation of `encodeView (select)`
   Helper lemmas for `Props/C08.lean` (core Lean only; no Mathlib). Generated once from the development files; edit here.
@@ -112,6 +113,29 @@ theorem segments_eq_encode (st : Storage) (hcls : ClassValuesOk st) (g : Gen) (h
     | product =>
       refine ⟨_, rfl, ?_⟩
       simp [encodeView, List.map_replicate, List.map_const', Gen.colsize, hk]
+    | gradient k =>
+      rw [hk] at hdesc
+      obtain ⟨_, h0, _⟩ := hdesc
+      refine ⟨_, rfl, ?_⟩
+      simp [encodeView, List.map_const', Gen.colsize, hk, hm, h0]
+    | custom c =>
+      cases ho : c.out with
+      | sclass =>
+        simp only [ho]
+        refine ⟨_, rfl, ?_⟩
+        simp [encodeView, List.map_replicate, List.map_const']
+      | mclass =>
+        simp only [ho]
+        refine ⟨_, rfl, ?_⟩
+        simp [encodeView, List.map_replicate, List.map_const', Gen.colsize, hk, customCols, ho, List.replicate_succ]
+      | scalar =>
+        simp only [ho]
+        refine ⟨_, rfl, ?_⟩
+        simp [encodeView, List.map_replicate, List.map_const', Gen.colsize, hk, customCols, ho]
+      | struct =>
+        simp only [ho]
+        refine ⟨_, rfl, ?_⟩
+        simp [encodeView, List.map_const', Gen.colsize, hk, customCols, ho]
   · simp only [hd, Bool.false_eq_true, if_false]
     cases hk : g.kind with
     | sclassId =>
@@ -149,6 +173,43 @@ theorem segments_eq_encode (st : Storage) (hcls : ClassValuesOk st) (g : Gen) (h
     | product =>
       refine ⟨_, rfl, ?_⟩
       simp [encodeView, List.map_map, Function.comp]
+    | gradient k =>
+      refine ⟨_, rfl, ?_⟩
+      simp [encodeView]
+    | custom c =>
+      cases ho : c.out with
+      | sclass =>
+        simp only [ho]
+        refine ⟨_, rfl, ?_⟩
+        simp only [encodeView, List.map_map, flatBy]
+        apply List.map_congr_left
+        intro x hx
+        simp only [Function.comp]
+        apply flatSclass_eq
+        intro v hv
+        obtain ⟨p, rfl⟩ := derived_mem st c m _ ss x hx v hv
+        exact headI_nonneg _ (customOut_class_nonneg c p (Or.inl ho))
+      | mclass =>
+        simp only [ho]
+        refine ⟨_, rfl, ?_⟩
+        simp only [encodeView, List.map_map, flatBy]
+        apply List.map_congr_left
+        intro x hx
+        simp only [Function.comp]
+        have hc : g.colsize i = 2 := by simp [Gen.colsize, hk, customCols, ho]
+        rw [hc]
+        apply flatMclass_eq
+        intro v hv
+        obtain ⟨p, rfl⟩ := derived_mem st c m _ ss x hx v hv
+        exact customOut_class_nonneg c p (Or.inr ho)
+      | scalar =>
+        simp only [ho]
+        refine ⟨_, rfl, ?_⟩
+        simp [encodeView, List.map_map, Function.comp, flatBy]
+      | struct =>
+        simp only [ho]
+        refine ⟨_, rfl, ?_⟩
+        simp [encodeView, Gen.colsize, hk, customCols, ho, flatBy]
 
 end
 
@@ -306,6 +367,10 @@ structure Dataset.WF (ds : Dataset) : Prop where
   st : ds.st.WF
   gens : ∀ g ∈ ds.gens, g.WF ds.st
 
+/-- no generated feature is the degenerate 1x1 gradient map (`Gen.NonDegenerate`); holds for every stack whose gradient
+    generators see no structured feature of exactly 3x3 rows x columns (`nonDegenerate_iff`) -/
+def Dataset.NonDegenerate (ds : Dataset) : Prop := ∀ g ∈ ds.gens, g.NonDegenerate
+
 theorem lenOk_of_wf (st : Storage) (h : st.WF) : LenOk st :=
   fun f s feat v hf hv => stored_length_all st h f s feat v hf hv
 
@@ -324,7 +389,6 @@ theorem segments_width (st : Storage) (hlen : LenOk st) (g : Gen) (hg : g.WF st)
     (hm : g.mapping[i]? = some m) (ss : List Nat) :
     ∀ seg ∈ g.segments (α := α) st i ss, seg.length = g.colsize i := by
   obtain ⟨f, hf, hacc, hdesc, _⟩ := hg.rows i m hm
-  obtain ⟨hc1, hc2, hc3, hc4⟩ := hdesc
   have hfeat := inputFeature_feats st _ f hf
   intro seg hseg
   unfold Gen.segments at hseg
@@ -334,6 +398,32 @@ theorem segments_width (st : Storage) (hlen : LenOk st) (g : Gen) (hg : g.WF st)
     obtain ⟨_, _, rfl⟩ := hseg
     simp
   · cases hk : g.kind with
+    | gradient k =>
+      simp only [hk, iterate, List.map_map, List.mem_map, Function.comp] at hseg
+      obtain ⟨s, _, rfl⟩ := hseg
+      rw [hk] at hdesc
+      rw [hf, Option.getD_some, encGradient_length k f m _ hdesc]
+      simp [Gen.colsize, hk, hm]
+    | custom c =>
+      simp only [hk, List.mem_map] at hseg
+      obtain ⟨x, hx, rfl⟩ := hseg
+      have hcol : g.colsize i = customCols c.out := by simp [Gen.colsize, hk]
+      rw [hcol]
+      cases x with
+      | none => cases ho : c.out <;> simp [flatBy, flatSclass, flatMclass, encStruct, customCols]
+      | some v =>
+        obtain ⟨p, rfl⟩ := derived_mem st c m _ ss _ hx v rfl
+        cases ho : c.out with
+        | sclass => simp [flatBy, flatSclass, customCols]
+        | mclass =>
+          have := customOut_length c p (Or.inl ho)
+          rw [ho] at this
+          simp [flatBy, flatMclass, this]
+        | scalar => simp [flatBy, customCols]
+        | struct =>
+          have := customOut_length c p (Or.inr ho)
+          rw [ho] at this
+          simp [flatBy, encStruct, this]
     | sclassId =>
       simp only [hk, iterate, List.map_map, List.mem_map, Function.comp] at hseg
       obtain ⟨s, _, rfl⟩ := hseg
@@ -341,7 +431,8 @@ theorem segments_width (st : Storage) (hlen : LenOk st) (g : Gen) (hg : g.WF st)
     | mclassId =>
       simp only [hk, iterate, List.map_map, List.mem_map, Function.comp] at hseg
       obtain ⟨s, _, rfl⟩ := hseg
-      rw [hk] at hacc
+      rw [hk] at hacc hdesc
+      obtain ⟨hc1, hc2, hc3, hc4⟩ := hdesc
       cases hv : st.stored (st.inputIndex m.orig) (iterSample (g.shuffledAll i) s) with
       | none => simp [flatMclass]
       | some v =>
@@ -355,7 +446,8 @@ theorem segments_width (st : Storage) (hlen : LenOk st) (g : Gen) (hg : g.WF st)
     | structId =>
       simp only [hk, iterate, List.map_map, List.mem_map, Function.comp] at hseg
       obtain ⟨s, _, rfl⟩ := hseg
-      rw [hk] at hacc
+      rw [hk] at hacc hdesc
+      obtain ⟨hc1, hc2, hc3, hc4⟩ := hdesc
       cases hv : st.stored (st.inputIndex m.orig) (iterSample (g.shuffledAll i) s) with
       | none => simp [encStruct]
       | some v =>
@@ -501,14 +593,16 @@ def kindOverload : GKind → Overload
   | .scalarId => .scalar
   | .structId => .struct
   | .product => .scalar
+  | .gradient _ => .struct
+  | .custom c => c.out
 
-theorem kindOverload_matches (st : Storage) (g : Gen) (hg : g.WF st) (i : Nat) (desc : Feature)
+theorem kindOverload_matches (st : Storage) (g : Gen) (hg : g.WF st) (hnd : g.NonDegenerate) (i : Nat) (desc : Feature)
     (hd : g.feature st i = some desc) : (kindOverload g.kind).matches desc = true := by
   unfold Gen.feature at hd
   cases hm : g.mapping[i]? with
   | none => simp [hm] at hd
   | some m =>
-    obtain ⟨f, hf, hacc, _, hprod⟩ := hg.rows i m hm
+    obtain ⟨f, hf, hacc, hdesc, hprod⟩ := hg.rows i m hm
     simp only [hm, Option.bind_eq_bind, Option.bind_some] at hd
     cases hk : g.kind with
     | product =>
@@ -516,6 +610,29 @@ theorem kindOverload_matches (st : Storage) (g : Gen) (hg : g.WF st) (i : Nat) (
       simp only [hk, hf, hf2, Option.bind_some, Option.pure_def, Option.some.injEq] at hd
       subst hd
       simp [kindOverload, Overload.matches, Feature.isScalar, Feature.isClass, Feature.dimSize]
+    | gradient k =>
+      have h1 := hnd k hk m (List.mem_of_getElem? hm)
+      rw [hk] at hdesc
+      obtain ⟨_, h0, _⟩ := hdesc
+      simp only [hk, hf, Option.bind_some, Option.pure_def, Option.some.injEq] at hd
+      subst hd
+      simp [kindOverload, Overload.matches, Feature.isStruct, Feature.isClass, Feature.dimSize, h0, h1]
+    | custom c =>
+      have hmatch : ∀ name, c.out.matches (customDesc c.out name) = true := by
+        intro name
+        cases c.out <;>
+          simp [customDesc, Overload.matches, Feature.isSclass, Feature.isMclass, Feature.isScalar, Feature.isStruct,
+            Feature.isClass, Feature.dimSize]
+      cases hc2 : c.in2 with
+      | none =>
+        simp only [hk, hf, hc2, Option.bind_some, Option.pure_def, Option.some.injEq] at hd
+        subst hd
+        exact hmatch _
+      | some k2 =>
+        obtain ⟨f2, hf2, _⟩ := hg.rows2 c k2 hk hc2 i m hm
+        simp only [hk, hf, hf2, hc2, Option.bind_some, Option.pure_def, Option.some.injEq] at hd
+        subst hd
+        exact hmatch _
     | sclassId | mclassId | scalarId | structId =>
       all_goals
         simp only [hk, hf, Option.some.injEq] at hd
@@ -527,8 +644,9 @@ section
 variable {α : Type} [Scalar α]
 
 /-- `dataset_t::select` on a valid call is the `select` of the owning generator -/
-theorem select_eq_gen (ds : Dataset) (hwf : ds.WF) (samples : List Int) (ss : List Nat)
-    (hs : ds.checkSamples samples = some ss) (f gi i : Nat) (hfm : ds.featMap[f]? = some (gi, i)) :
+theorem select_eq_gen (ds : Dataset) (hwf : ds.WF) (samples : List Int)
+    (ss : List Nat) (hs : ds.checkSamples samples = some ss) (f gi i : Nat) (hfm : ds.featMap[f]? = some (gi, i))
+    (hnd : ∀ g, ds.gens[gi]? = some g → g.NonDegenerate) :
     ∃ g desc, ds.gens[gi]? = some g ∧ i < g.features ∧ ds.feature f = some desc ∧
       featureColumns desc = g.colsize i ∧
       ds.select (α := α) samples (f : Int) (kindOverload g.kind) = g.select ds.st i ss := by
@@ -545,7 +663,7 @@ theorem select_eq_gen (ds : Dataset) (hwf : ds.WF) (samples : List Int) (ss : Li
     unfold Dataset.checkFeature
     rw [if_pos ⟨by omega, by simpa using hflt⟩]
     simp
-  have hmatch := kindOverload_matches ds.st g hgwf i desc hd
+  have hmatch := kindOverload_matches ds.st g hgwf (hnd g hg) i desc hd
   refine ⟨g, desc, hg, hi, hfeat, hc, ?_⟩
   simp [Dataset.select, hs, hcf, hfeat, hmatch, hfm, hg]
 
